@@ -178,7 +178,7 @@ def d2_data_owners(ctx, committer, appenders):
                            detail='os.truncate is not confined to the `0 <= newlen < len(a)` branch: it could grow the file')
                 continue
             ctx.ok('R-OWN', 'D2', f, e.node, construct, inst + f' — owner: {owners[f.qualname]}')
-    ctx.floor('C17 data-file touch sites', n, 6)
+    ctx.floor('C17 data-file touch sites', n, 5)
     # flush follows the write inside the appender
     if not arr_app:
         raise AnalysisError('Array appender (role) not found')
@@ -258,7 +258,7 @@ def d2_commit_counts(ctx, committer, appenders):
                     detail=f'committed count `{a}` is not derived from appender return values nor from '
                            f'the length of the array that was written: the descriptor may admit rows '
                            f'that were not (completely) written')
-    ctx.floor('C17 committer call sites', n, 8)
+    ctx.floor('C17 committer call sites', n, 6)
 
 
 def d3_two_file_order(ctx, committer):
@@ -301,7 +301,7 @@ def d3_two_file_order(ctx, committer):
                            f'{f.qualname}: indices are truncated before values',
                            detail='values truncated first: a crash in between leaves index rows that '
                                   'point past the end of values while both sub-arrays are self-consistent')
-    ctx.floor('C17 ragged growth functions', ngrow, 3)
+    ctx.floor('C17 ragged growth functions', ngrow, 2)
     ctx.floor('C17 ragged shrink functions', nshrink, 1)
 
 
